@@ -21,10 +21,10 @@ Proof. exact rebin_values_correct. Qed.
 Print Assumptions C08_values.
 
 (* accepted iff lengths match and every bin divides its axis; the new shape is the element-wise
-   quotient; all-ones returns the cube itself *)
-Theorem C08_plan : forall shape bins, Forall (fun b => 0 < b) bins -> Forall (fun s => 0 <= s) shape ->
-  match rebin_plan shape bins with
-  | Ok PSelf => Forall (fun b => b = 1) bins
+   quotient; all-ones (with no change of unit) returns the cube itself; wrong lengths are refused first *)
+Theorem C08_plan : forall su shape bins, Forall (fun b => 0 < b) bins -> Forall (fun s => 0 <= s) shape ->
+  match rebin_plan_u su shape bins with
+  | Ok PSelf => Forall (fun b => b = 1) bins /\ su = true /\ length bins = length shape
   | Ok (PBins ns bs) => bs = bins /\ divides_all shape bins /\ zip2z Z.mul ns bins = shape
   | Err _ => length bins <> length shape \/ exists s b, In (s, b) (combine shape bins) /\ s mod b <> 0
   end.
